@@ -16,6 +16,7 @@ def canon_facts(f):
     f.pop("why", None)
     f.pop("enum_tables", None)
     f.pop("addr_tables", None)
+    f.pop("op_tables", None)
     if f.get("outcome") == "error":
         if f.get("stage") == "front":
             f["names"] = []
